@@ -87,6 +87,11 @@ CHECKS = {
                      "taken then; a second question after a first on the same (possibly split-in-place) operands gives the same kind, area and region (z3, free query point) as on "
                      "fresh operands.",
                 technique="symbolic execution of operation histories on the real code (SYMX) + z3 per path cell; live-vs-deepcopy identities"),
+    "C07": dict(level="model_checking", design="4/C07",
+                text="X == Y, Y == X, X != Y, X == X under SYMX for descriptions of one polygon (rotated vertex list, redundant vertices, reversed orientation) at a symbolic common "
+                     "translation with Y shifted by a symbolic s, and for Simple/Connected/Disjoint shapes built by constructor, reordered, or by operators: on every path cell "
+                     "z3 decides bool-ness, symmetry, consistency with !=, and that the answer is True exactly where s = 0 (1e-5 band excluded).",
+                technique="symbolic execution of the real code (SYMX) + z3 per path cell"),
 }
 NA = {}
 
